@@ -28,7 +28,7 @@ RULE = (
     "is sliced or >=2 indices removed"
 )
 ASSUMPTIONS = ["dense reference evaluator (cross-checked with numpy in C01)"]
-REQUIRED_MONITORS = ["key_bijection", "slice_value", "slice_arrays", "gather", "gather_lazy", "gather_stripped", "chunks", "chunk_tiles"]
+REQUIRED_MONITORS = ["history_cases", "key_bijection", "slice_value", "slice_arrays", "gather", "gather_lazy", "gather_stripped", "chunks", "chunk_tiles"]
 SHARD_TIMEOUT = {"quick": 400, "thorough": 3600}
 
 
@@ -45,10 +45,35 @@ def classify(v):
 
 
 def build(case):
+    """mode 'fresh': remove_ind chain on a new tree.  mode 'history': extra indices are removed as
+    well, the slicing machinery is USED (contract, slice_key: whatever it caches is now populated),
+    then the extra indices are restored in a random order (optionally on a copy) - the resulting
+    tree has exactly the removed list of the case and must behave like a fresh one."""
     net = gen.Net.from_json(case["net"])
     tree = ct.make_tree(net, case["ssa"])
-    for ix, proj in case["removed"]:
+    extra = case.get("extra") or []
+    seq = list(case["removed"]) + [(ix, None) for ix in extra]
+    if extra:
+        r = rng_for(case["case_seed"], "history")
+        r.shuffle(seq)
+    for ix, proj in seq:
         tree.remove_ind_(ix, project=proj)
+    if extra:
+        r = rng_for(case["case_seed"], "history2")
+        arrays = net.arrays(rng_for(case["case_seed"], "arrays"), case["kind"])
+        if tree.nslices <= 512:
+            tree.contract(arrays)
+            tree.slice_key(tree.nslices - 1)
+            list(tree.gen_output_chunks(arrays))
+        if case.get("copy_before_restore"):
+            tree = tree.copy()
+        order = list(extra)
+        r.shuffle(order)
+        for ix in order:
+            if r.random() < 0.5:
+                tree.restore_ind_(ix)
+            else:
+                tree = tree.restore_ind(ix)
     return net, tree
 
 
@@ -245,6 +270,12 @@ def run_shard(rep, tier, seed, shard, nshards):
             if dl.expired():
                 break
             case = {"net": net.to_json(), "ssa": ssa, "removed": removed, "kind": kind, "case_seed": f"{cs}/{j}", "max_slices": budget(tier, 48, 256)}
+            if rng.random() < 0.3:
+                free = [ix for ix in net.size_dict if any(ix in t for t in net.inputs) and ix not in [r_[0] for r_ in removed]]
+                if free:
+                    case["extra"] = rng.sample(free, min(len(free), rng.randint(1, 2)))
+                    case["copy_before_restore"] = rng.random() < 0.4
+                    rep.mon("history_cases")
             names = [ix for ix, _ in removed]
             nontrivial = len(removed) >= 2 or any(ix in net.output for ix in names)
             rep.case((net.key(), tuple(map(tuple, ssa)), tuple(map(tuple, removed))), nontrivial, net.cls,
